@@ -557,7 +557,7 @@ def c12_run(ctx):
 TV = "translation_validation"
 REGISTRY = {
     "C13": Spec("FFSM2.Props.C13", ["bitwidth", "contain", "typebits", "buffers"], container_run(["bitstream"])),
-    "C14": Spec("FFSM2.Props.C14", ["halving", "find", "ids"], c14_run),
+    "C14": Spec("FFSM2.Props.C14", ["halving", "find", "ids"], c14_run, extra=("FFSM2.Props.DispatchHistory",)),
     "C15": Spec("FFSM2.Props.C15", ["layers"], c15_run),
     "C20": Spec("FFSM2.Props.C20", ["contain", "buffers"], container_run(["bitarray", "static", "dynamic"])),
     "C10": Spec("FFSM2.Props.C10", ["config", "ids"], c10_run, extra=("FFSM2.Props.History", "FFSM2.Props.PlanHistory")),
